@@ -40,7 +40,7 @@ impl SymbolTable {
   }
 """
 
-ERR_RX = re.compile(r"return\s+Err\(\s*MechError::new\(\s*(\w+)\s*\{[^}]*\}\s*,.*?\)\s*\.with_compiler_loc\(\)\s*\.with_tokens\([^;]*?\)\s*\)\s*;", re.S)
+ERR_RX = re.compile(r"return\s+Err\(\s*MechError::new\(\s*(\w+)\s*\{[^}]*\}\s*,.*?\)\s*\.with_compiler_loc\(\)\s*\.with_tokens\(\s*[\w\.]+\(\)\s*\)\s*\)\s*([;,])", re.S)
 
 
 def harness_modules():
@@ -49,7 +49,7 @@ def harness_modules():
 
 def rewrite_errors(text):
     """`return Err(MechError::new(Kind { .. }, ..).with_compiler_loc().with_tokens(..));` -> `return Err(ErrKind::Kind);`"""
-    return ERR_RX.sub(lambda m: "return Err(ErrKind::%s);" % m.group(1), text)
+    return ERR_RX.sub(lambda m: "return Err(ErrKind::%s)%s" % (m.group(1), m.group(2)), text)
 
 
 def verus_unit(plan):
@@ -104,6 +104,46 @@ fn variable_assign_guard<'a>(p: &Interp<'a>, id: u64) -> (r: Result<ValRef, ErrK
 }
 """ % frag.strip())
     fns["variable_assign_guard"] = "C05.guard.variable_assign"
+    # --- guard of op_assign (F): same region, goes through ProgramState
+    try:
+        sig, body = extract_fn(stmt, "op_assign")
+        frag = between(body, r"let id = slc\.name\.hash\(\);", r"match &slc\.subscript")
+        frag = frag[len("let id = slc.name.hash();"):]
+        frag = rewrite_errors(frag).replace("val.borrow().clone()", "val").replace("p.state.borrow_mut()", "p.state()")
+        if "MechError" in frag:
+            raise AnchorLost("op_assign guard: unexpected error construction")
+        items.append("""// ProgramState seen through its symbol table (assumed: no local environment is active)
+pub struct StateView<'a> { pub st: &'a SymbolTable }
+impl<'a> StateView<'a> {
+  #[verifier::external_body]
+  pub fn get_mutable_symbol(&self, id: u64) -> (r: Option<ValRef>)
+    ensures r == (if self.st.mutable_variables@.contains_key(id) { Some(self.st.mutable_variables@[id]) } else { None::<ValRef> }) { unimplemented!() }
+  #[verifier::external_body]
+  pub fn get_symbol(&self, id: u64) -> (r: Option<ValRef>)
+    ensures r == (if self.st.symbols@.contains_key(id) { Some(self.st.symbols@[id]) } else { None::<ValRef> }) { unimplemented!() }
+  #[verifier::external_body]
+  pub fn contains_symbol(&self, id: u64) -> (r: bool) ensures r == self.st.symbols@.contains_key(id) { unimplemented!() }
+}
+impl<'a> Interp<'a> {
+  pub fn state(&self) -> (r: StateView<'a>) ensures r.st == self.st { StateView { st: self.st } }
+}
+
+fn op_assign_guard<'a>(p: &Interp<'a>, id: u64) -> (r: Result<ValRef, ErrKind>)
+  ensures
+    match r {
+      Ok(c) => p.st.mutable_variables@.contains_key(id) && c == p.st.mutable_variables@[id],
+      Err(e) => !p.st.mutable_variables@.contains_key(id)
+                && (e == ErrKind::NotMutableError <==> p.st.symbols@.contains_key(id))
+                && (e == ErrKind::UndefinedVariableError <==> !p.st.symbols@.contains_key(id)),
+    },
+{
+  %s
+  Ok(sink)
+}
+""" % frag.strip())
+        fns["op_assign_guard"] = "C05.guard.op_assign"
+    except AnchorLost as e:
+        plan.anchor_errors.append(("C05.guard.op_assign", str(e)))
     # --- guard of variable_define (F): everything before the defining expression is evaluated
     sig, body = extract_fn(stmt, "variable_define")
     frag = between(body, r"let var_name = var_def\.var\.name\.to_string\(\);", r"let mut result = expression\(")
@@ -155,6 +195,7 @@ include!("/verif/contracts/common/vk.rs");
 // detach_variable_value(..) as y.  Isolation requires that a later write through x's
 // cell is not visible through y.
 #[cfg_attr(kani, kani::proof)]
+#[cfg_attr(kani, kani::unwind(4))]
 pub(crate) fn vkc05_detach_separation_f64() {
   let a: f64 = vk::any(); let b: f64 = vk::any();
   vk::assume(a.to_bits() != b.to_bits());
@@ -174,6 +215,7 @@ pub(crate) fn vkc05_detach_separation_f64() {
 
 // a plain (non-reference) value: detach is the identity on the value
 #[cfg_attr(kani, kani::proof)]
+#[cfg_attr(kani, kani::unwind(4))]
 pub(crate) fn vkc05_detach_value_preserved_f64() {
   let a: f64 = vk::any();
   let v = Value::F64(Ref::new(a));
@@ -208,6 +250,6 @@ def plan(plan, tier, seed):
     plan.trusted += ["Verus / Z3 with vstd's std HashMap specification (group_hash_axioms)", "Kani / CBMC"]
     plan.assumptions += ["history clause is decided only as a lemma over the per-function contracts (abstract store); that every statement evaluator goes through these guards is read off the code, not proved",
                          "'never aborts the host' rests on catch_unwind in Interpreter::interpret and is not decided",
-                         "op_assign's guard has the same shape as variable_assign's but goes through ProgramState::{get_mutable_symbol,contains_symbol}; not extracted"]
+                         "op_assign's guard goes through ProgramState::{get_mutable_symbol,contains_symbol}, which are stand-ins specified as the symbol table's get_mutable / contains (assumed: no local environment active)"]
     plan.undecided_clauses += ["C05: 'a failing statement leaves every binding unchanged' for failures after the guard (expression evaluation, kernels) is not decided; field assignment, tuple destructuring not covered"]
     plan.level = "proof"
